@@ -108,6 +108,8 @@ func init() {
 		"time.Now":   timeNow,
 		"time.Since": timeSince,
 		"time.Sleep": func(fr *frame, a []value) value { fr.i.sched.yield("time.Sleep"); return nil },
+		// the local time zone is UTC (no zone database is read): localLoc stays the zero Location, which time treats as UTC
+		"time.initLocal": func(fr *frame, a []value) value { return nil },
 		"time.runtimeNano":     func(fr *frame, a []value) value { fr.i.clock += 1000; return int64(1_000_000_000) + fr.i.clock },
 		"time.now":             func(fr *frame, a []value) value { fr.i.clock += 1000; return tuple{int64(1_700_000_000), int32(fr.i.clock % 1_000_000_000), int64(1_000_000_000) + fr.i.clock} },
 		"time.runtimeNow":      func(fr *frame, a []value) value { fr.i.clock += 1000; return tuple{int64(1_700_000_000), int32(fr.i.clock % 1_000_000_000), int64(1_000_000_000) + fr.i.clock} },
@@ -296,6 +298,9 @@ func (fr *frame) atomicSync(addr *value, write bool) {
 	if i.race != nil {
 		i.race.atomicAccess(fr, addr, write)
 	}
+	// an atomic operation is a point at which another goroutine may be scheduled (it matters only with a
+	// preemption budget): lock-free code is built from exactly these points
+	i.syncPoint("atomic")
 }
 
 func atomicAdd(fr *frame, a []value) value {
@@ -497,7 +502,7 @@ func errorsAs(fr *frame, a []value) value {
 			return true
 		}
 		if m := fr.i.findMethod(e.t, "As"); m != nil && m.Signature.Params().Len() == 1 {
-			if fr.truth(call(fr.i, fr, token.NoPos, m, []value{e.v, iface{t: types.NewInterfaceType(nil, nil), v: target}})) {
+			if fr.truth(call(fr.i, fr, token.NoPos, m, []value{e.v, target})) {
 				return true
 			}
 		}
